@@ -14,7 +14,7 @@
 From Coq Require Import String ZArith List Bool Arith.
 From PF Require Import Lib.ListX Lib.PySlice Model.Ragged Model.RaggedSpec Model.RaggedRun Model.Frame Model.FrameSpec
      Gen.Tables.
-From PF Require Import Proofs.MntProofs Proofs.MetProofs Proofs.FrameProofs.
+From PF Require Import Proofs.MntProofs Proofs.MetProofs Proofs.FrameProofs Proofs.MaskFrame.
 Import ListNotations.
 
 (* Every feature of every storage kind and the target contain exactly the
@@ -122,6 +122,46 @@ Proof.
   - apply in_map_iff. exists (s, v). split; [reflexivity|exact Hin].
 Qed.
 Print Assumptions getitem_then_get_col_feat.
+
+(* ------------------------------------------------------------------ *)
+(* The boolean mask in plain terms.  The model gives `tf[mask]` the meaning the code gives it
+   (`mask.nonzero().flatten()`, then the positional selection); Proofs/MaskFacts.v shows that this is what a reader
+   expects of a mask -- exactly the rows whose entry is True, each once, in their original order (`keep_true`, written
+   with `filter` only) -- that a mask of another length raises, and that the reported length is the number of Trues. *)
+From Coq Require Import Sorted.
+From PF Require Import Proofs.MaskFacts.
+
+Theorem mask_selects_exactly_the_true_rows : forall (X : Type) (m : list bool) (l : list X),
+  py_select (IMask m) l = if (length m =? length l)%nat then Some (keep_true m l) else None.
+Proof. exact (@py_select_mask). Qed.
+Print Assumptions mask_selects_exactly_the_true_rows.
+
+Theorem mask_positions_are_the_true_entries_in_order : forall m,
+  (forall i, In i (nonzero m) <-> nth_error m i = Some true)
+  /\ StronglySorted lt (nonzero m)
+  /\ length (nonzero m) = count_true m.
+Proof. intro m. exact (conj (nonzero_In m) (conj (nonzero_sorted m) (nonzero_length m))). Qed.
+Print Assumptions mask_positions_are_the_true_entries_in_order.
+
+Theorem getitem_mask_row_count : forall n vs nm yy ov m,
+  frame_wf n vs yy ov -> length m = n ->
+  tf_getitem (frame_of vs nm yy ov) (IMask m) = Some (sel_frame (nonzero m) vs nm yy ov)
+  /\ exists f', tf_getitem (frame_of vs nm yy ov) (IMask m) = Some f'
+                /\ tf_num_rows f' = Some (count_true m) /\ names f' = nm.
+Proof. exact getitem_mask_row_count_proof. Qed.
+Print Assumptions getitem_mask_row_count.
+
+Theorem getitem_mask_of_another_length_raises : forall n vs nm yy ov m,
+  frame_wf n vs yy ov -> vs <> [] \/ yy <> None \/ ov <> None -> length m <> n ->
+  tf_getitem (frame_of vs nm yy ov) (IMask m) = None.
+Proof. exact getitem_mask_wrong_length_proof. Qed.
+Print Assumptions getitem_mask_of_another_length_raises.
+
+Example ex_mask_plain :
+  py_select (IMask [true; false; true; true]) [10; 11; 12; 13] = Some [10; 12; 13]
+  /\ py_select (IMask [true; false; true]) [10; 11; 12; 13] = None
+  /\ keep_true [false; false] [1; 2] = @nil nat /\ count_true [true; false; true; true] = 3.
+Proof. vm_compute. repeat split. Qed.
 
 (* ------------------------------------------------------------------ *)
 (* "The source is left unchanged" for the one object of the caller that the selection code writes next to: the index
